@@ -105,6 +105,8 @@ def innermost_loops(body):
 def is_buf(body, arg, buf):
     """buf: a local, or ("upvar", j) = the place captured as field j of a closure's environment"""
     if isinstance(buf, tuple):
+        # ("upvar", j): field j of the closure environment (local 1); ("field", l, j): field j of the struct held in (or pointed to by) local l
+        root, fld = (1, buf[1]) if buf[0] == "upvar" else (buf[1], buf[2])
         body.defs()
         p = flow.op_place(arg)
         cands = []
@@ -112,12 +114,33 @@ def is_buf(body, arg, buf):
             cands.append((p["l"], p["proj"]))
         cands += body._mut_places(arg, 0)
         for l, pj in cands:
-            if l == 1:
+            if l == root:
                 fs = [e for e in pj if isinstance(e, dict) and "f" in e]
-                if fs and fs[0]["f"] == buf[1]:
+                if fs and fs[0]["f"] == fld:
                     return True
         return False
     return targets_buffer(body, arg, buf)
+
+
+def holds_buf(body, arg, buf):
+    """the argument is a `&mut` to the whole struct whose field is the buffer (a builder's `&mut self`)"""
+    if not (isinstance(buf, tuple) and buf[0] == "field"):
+        return False
+    body.defs()
+    p = flow.op_place(arg)
+    cands = []
+    if p is not None and (not p["proj"] or p["proj"] == ["*"]):
+        ty = body.locals[p["l"]] if p["l"] < len(body.locals) else ""
+        if p["l"] == buf[1] and ty.startswith("&mut "):
+            return True
+    for l, pj in body._mut_places(arg, 0):
+        if l == buf[1] and not [e for e in pj if isinstance(e, dict) and "f" in e]:
+            return True
+    # the struct itself, moved into a consuming method (`writer.finish(..)`)
+    for l, pr in (flow.resolve_chain(body, arg) or []):
+        if l == buf[1] and not pr:
+            return True
+    return False
 
 
 def _closure_capturing(body, arg, buf):
@@ -132,6 +155,55 @@ def _closure_capturing(body, arg, buf):
     return None
 
 
+def _live_given_frame(body, frames):
+    """blocks of an inlined helper that can run given the enum literals passed at its call site (`finish(Payload::Unsigned)`); None when
+    nothing is known"""
+    if not frames or frames[-1][3] != "fn":
+        return None
+    caller, term = frames[-1][0], frames[-1][1]
+    known = {}
+    for j, a in enumerate(term["args"]):
+        p = flow.op_place(a)
+        if p is None or p["proj"]:
+            continue
+        l = p["l"]
+        for _ in range(4):
+            df = flow.single_def(caller, l)
+            if df is None or df["kind"] != "assign":
+                break
+            rv = df["rv"]
+            if rv["k"] == "agg" and rv.get("agg") == "adt" and rv.get("variant") is not None:
+                known[j + 1] = rv["variant"]
+                break
+            if rv["k"] == "use" and flow.op_place(rv["ops"][0]) is not None and not flow.op_place(rv["ops"][0])["proj"]:
+                l = flow.op_place(rv["ops"][0])["l"]
+                continue
+            break
+    if not known:
+        return None
+    from . import paths
+    removed = set()
+    for s in body.live_blocks():
+        t = body.blocks[s]["term"]
+        if t["k"] != "switch":
+            continue
+        src = paths.switch_source(body, t)
+        if not src or src[0] != "discr":
+            continue
+        r = flow.resolve_place(body, src[1]["ops"][0])
+        if r is None or r[1] or r[0] not in known:
+            continue
+        if body.defs().get(r[0]):
+            continue        # the parameter is reassigned in the helper
+        vals = paths.discr_values(t, src[1])
+        for lab, v in vals.items():
+            if v != known[r[0]] and not (isinstance(v, str) and v.startswith("OTHER:") and known[r[0]] in v[6:].split("|")):
+                removed.add((s, lab))
+    if not removed:
+        return None
+    return flow.reach(body, [0], removed=frozenset(removed))
+
+
 def buffer_events(body, buf, db=None, prim=None, _frames=(), _depth=0, _loops=()):
     """calls that append to `buf` (directly, through &mut reborrows, or through a closure capturing &mut buf), in RPO.
     prim: set of callee short names the caller's layout treats as primitive appends; when given, (a) any other function of the same crate that
@@ -141,14 +213,24 @@ def buffer_events(body, buf, db=None, prim=None, _frames=(), _depth=0, _loops=()
     order = rpo(body)
     loops = innermost_loops(body)
     ev = []
+    live = _live_given_frame(body, _frames)
     for bi in order:
         t = body.blocks[bi]["term"]
         if t["k"] != "call" or not t["args"]:
             continue
+        if live is not None and bi not in live:
+            continue        # an arm of `match param` that the constant argument of this call site does not select
         hits = [i for i, a in enumerate(t["args"]) if is_buf(body, a, buf)]
-        if not hits:
-            continue
         d = callee_def(t)
+        if not hits:
+            # a stage method of a builder: `w.headers(..)` with the buffer in `w.buf`
+            whole = [i for i, a in enumerate(t["args"]) if holds_buf(body, a, buf)]
+            if len(whole) == 1 and prim is not None and db is not None and _depth < 4:
+                cb = db.bodies.get(t["callee"].get("resolved") or "") or db.bodies.get(d)
+                if cb is not None and cb.crate == body.crate and cb.kind in ("Fn", "AssocFn") and cb.name != body.name:
+                    here = _loops + tuple((body.name, h) for h in loops.get(bi, ()))
+                    ev.extend(buffer_events(cb, ("field", whole[0] + 1, buf[2]), db, prim, _frames + ((body, t, cb, "fn", None),), _depth + 1, here))
+            continue
         if flow.is_transparent(t) or d.endswith("::with_capacity") or d.endswith("::reserve"):
             continue
         here = _loops + tuple((body.name, h) for h in loops.get(bi, ()))
